@@ -570,6 +570,44 @@ fn c17_units(tier: Tier) -> Vec<Unit> {
             }
         }));
     }
+    // ---- C: every compare value (the histories above use 12 start combinations)
+    {
+        let tcnts: Vec<u8> = if thorough { (0..=255u8).collect() } else { crate::hv::dom::K16.to_vec() };
+        let dom = format!(
+            "every TCORA value 1-255 x 3 TCORB values (TCORA+1, TCORA-1, the complement; non-zero and different) x {} TCNT start values x 8 TCR values (each clear source, enables on/off, /8 and /64) x the history elapse(9), elapse(255), 33 x 255 states, TCSR=00, elapse(200): the counter passes every value at least four times under /8",
+            tcnts.len()
+        );
+        units.push(Unit::new("all-compare-values", 255, &dom, move |ctx, chunk| {
+            let a = chunk as u8 + 1;
+            let mut bs: Vec<u8> = vec![a.wrapping_add(1), a.wrapping_sub(1), !a];
+            bs.retain(|&b| b != 0 && b != a);
+            bs.dedup();
+            for &b in bs.iter() {
+                for &tcr in &[0x01u8, 0x09, 0x11, 0xe9, 0xf1, 0xc1, 0x0a, 0xea] {
+                    for &t in tcnts.iter() {
+                        let mut sys = TimerSys::new();
+                        let mut path = Vec::new();
+                        if !setup(ctx, &mut sys, tcr, (a, b, t), &mut path) {
+                            continue;
+                        }
+                        for act in [TAct::Elapse(9), TAct::Elapse(255), TAct::Long(33), TAct::Tcsr(0x00), TAct::Elapse(200)] {
+                            path.push(act);
+                            ctx.st.cases += 1;
+                            ctx.st.nontrivial += 1;
+                            if let Err(m) = sys.apply(&act) {
+                                let p: Vec<String> = path.iter().map(|x| x.text()).collect();
+                                ctx.custom_violation("c17", m, json!({"path": p}), json!(null), json!(null));
+                                break;
+                            }
+                        }
+                        if ctx.stop {
+                            return;
+                        }
+                    }
+                }
+            }
+        }));
+    }
     let _ = chunk_range;
     units
 }
